@@ -198,10 +198,12 @@ class BitStringEncoder(AbstractItemEncoder):
             value = asn1Spec.clone(value)
 
         valueLength = len(value)
+
+        # padding and fragments are computed on plain bits, they need not
+        # satisfy the constraints of the type being encoded
+        alignedValue = univ.BitString(value)
         if valueLength % 8:
-            alignedValue = value << (8 - valueLength % 8)
-        else:
-            alignedValue = value
+            alignedValue = alignedValue << (8 - valueLength % 8)
 
         maxChunkSize = options.get('maxChunkSize', 0)
         if not maxChunkSize or len(alignedValue) <= maxChunkSize * 8:
